@@ -71,6 +71,9 @@ type c03Case struct {
 	// The faulted client's open may fail; if it succeeds every oracle applies to it.
 	FaultClient string `json:"fault_client,omitempty"`
 	FaultK      int    `json:"fault_k,omitempty"`
+	// VersionOracle (run by C11): every SELECT also records s3db_version(); after the execution the table is
+	// re-opened restricted to exactly those versions and must show exactly the rows that SELECT returned
+	VersionOracle bool `json:"version_oracle,omitempty"`
 }
 
 // c03Faults: which (scenario, client, number of fault positions) get the interleaving x single-fault product.
@@ -140,6 +143,8 @@ func c03Run(r *engine.Run) int {
 }
 
 type c03Obs struct {
+	Version    string // s3db_version() right after the SELECT (VersionOracle)
+	VersionErr string
 	Client     string
 	Rows       []int
 	AckAtStart []int
@@ -164,7 +169,7 @@ func c03Worker(raw json.RawMessage) *engine.Result {
 		if s.Preemptions(len(s.Taken)) > 0 {
 			res.NontrivN++
 		}
-		c03Check(sc, s, res, outcomes)
+		c03Check(sc, c, s, res, outcomes)
 		if sampleTrace == nil && s.Preemptions(len(s.Taken)) >= 2 {
 			sampleTrace = append([]string{}, s.Labels...)
 		}
@@ -366,6 +371,14 @@ func c03Build(sc c03Scen, c c03Case, choices []int) *engine.Sched {
 							o.Rows = append(o.Rows, k)
 						}
 					}
+					if c.VersionOracle && x != nil && openErr == "" && o.Err == "" {
+						v, err := x.Version() // no storage request
+						o.Version = v
+						if err != nil {
+							o.VersionErr = err.Error()
+						}
+						me.Observe("version %s %q", v, o.VersionErr)
+					}
 					me.Observe("select %v %q", o.Rows, o.Err)
 					ex.obs = append(ex.obs, o)
 				}
@@ -381,7 +394,7 @@ func c03Build(sc c03Scen, c c03Case, choices []int) *engine.Sched {
 
 var c03Execs = map[*engine.Sched]*c03Exec{}
 
-func c03Check(sc c03Scen, s *engine.Sched, res *engine.Result, outcomes map[string]bool) {
+func c03Check(sc c03Scen, c c03Case, s *engine.Sched, res *engine.Result, outcomes map[string]bool) {
 	ex := c03Execs[s]
 	delete(c03Execs, s)
 	trace := func() string { return strings.Join(s.Labels, "\n    ") }
@@ -480,10 +493,45 @@ func c03Check(sc c03Scen, s *engine.Sched, res *engine.Result, outcomes map[stri
 			}
 		}
 	}
-	// a fresh open after everything finished contains every acknowledged statement
 	w := s.W
 	w.ClockFor = nil
 	w.SetClock(engine.T(9000))
+	if c.VersionOracle {
+		// C11 under interleavings: the version names a connection reported identify exactly the rows it saw
+		for _, o := range ex.obs {
+			if o.Err != "" {
+				continue
+			}
+			if o.VersionErr != "" {
+				res.Violate("version-query-fails", "client %s: s3db_version fails: %s [%s]\n    %s", o.Client, o.VersionErr, where, trace())
+				continue
+			}
+			var names []string
+			if err := json.Unmarshal([]byte(o.Version), &names); err != nil {
+				res.Violate("version-malformed", "client %s: s3db_version returned %q [%s]", o.Client, o.Version, where)
+				continue
+			}
+			if len(names) == 0 {
+				// no version at all denotes the empty table
+				if len(o.Rows) > 0 {
+					res.Violate("version-empty-although-rows-visible", "client %s saw rows %v but s3db_version() = %s [%s]\n    %s", o.Client, o.Rows, o.Version, where, trace())
+				}
+				continue
+			}
+			rows, err := openOnly(w, 4096, names)
+			w.MakeCurrent()
+			var got []int
+			for _, r := range rows {
+				var k int
+				fmt.Sscanf(r, "i%d", &k)
+				got = append(got, k)
+			}
+			if err != nil || fmt.Sprint(got) != fmt.Sprint(append([]int{}, o.Rows...)) {
+				res.Violate("version-does-not-identify-visible-rows", "client %s saw rows %v and s3db_version() = %s; the table re-opened with exactly these versions shows %v (err %v) [%s]\n    %s", o.Client, o.Rows, o.Version, got, err, where, trace())
+			}
+		}
+	}
+	// a fresh open after everything finished contains every acknowledged statement
 	f := w.NewClient("final")
 	o := engine.TableOpts{EPN: 4096, ReadOnly: true}
 	if err := f.Create(o); err != nil {
